@@ -238,6 +238,15 @@ func CheckC01(e *fw.Env, l *Lab) {
 			t.Receiver = []string{OrbiterReceiver(), strings.ToUpper(OrbiterReceiver())}[e.R.Intn(2)]
 			hs.RecvCls, hs.RouteCls, hs.FeeCls = "orbiter", "hostile-memo", fmt.Sprintf("memo%d", len(t.Memo)%97)
 		}
+		if e.R.Intn(100) < 6 {
+			// "every encoding of its fields": the same packet data followed by more bytes. ICS-20
+			// (and blockibc above the orbiter) read the first JSON value and ignore the rest, so
+			// the packet means the same
+			data := t.Data()
+			trailer := []string{"{}", "]", ",", "\x00", " x", "\n{\"a\":1}", string(data)}[e.R.Intn(7)]
+			t.RawData = append(append([]byte(nil), data...), trailer...)
+			hs.RecvCls += "+trailing-bytes"
+		}
 		ctx, _ := l.Base.CacheContext()
 		applySetup(e.R, l, ctx, t, &hs, true)
 		e.Log(map[string]any{"transfer": t, "setup": hs})
